@@ -121,6 +121,9 @@ func isOpaqueStruct(t types.Type) bool {
 	if strings.HasPrefix(p, ModulePath) {
 		return false
 	}
+	if p == "encoding/csv" && n.Obj().Name() == "Reader" {
+		return false // its exported configuration fields (FieldsPerRecord, ...) are read and written by the importers
+	}
 	_, isStruct := n.Underlying().(*types.Struct)
 	return isStruct
 }
